@@ -365,6 +365,14 @@ def check_adaptive_run(cell, ts, dt, dt_min, run, out, label, real_error=False):
             bad.append(('end', f"accepted steps end at {cur}, not at ts[-1]={T1}"))
     if bad:
         return bad
+    # a trial too short to bisect in floating point (0.5 (a + b) is a or b): one "half step" has length zero
+    unbisectable = [(a, b) for a, b, e in trials if 0.5 * (a + b) in (a, b)]
+    if unbisectable:
+        out.count('runs_with_unbisectable_trial')
+    if run['ys'] is not None and not bool(torch.isfinite(run['ys']).all()):
+        kind = 'nonfinite_after_unbisectable_trial' if unbisectable else 'nonfinite'
+        return [(kind, f"non-finite values returned; trial(s) {unbisectable[:2]} cannot be bisected in floating point, so "
+                 f"a half step of length zero was taken" if unbisectable else "non-finite values returned")]
     # values: two-half-step solution on accepted steps, interpolated at interior output times
     prog, y0, bm = run['prog'], run['y0'], run['bm']
     solver = zoo.make_solver(prog, bm, method, dt, opts)
